@@ -5,6 +5,16 @@ rules and the delivery format (nothing from /verif). The sub-agents are then sta
 import json, os, subprocess, sys
 root, wave = sys.argv[1], int(sys.argv[2])
 EMPHASIS = {
+ 7: """   * a PERFORMANCE-motivated rewrite that is right for the common input only: a memo / lru_cache / class-level table keyed too coarsely, a fast path that skips a step for "already clean"
+     values, an early exit from a loop, a pre-computed set that goes stale, `is` instead of `==`, a generator where a list was re-read,
+   * the Python data model of the library's own objects: `==` / `!=` / hash, `in`, `len`, `keys()` / `items()` / `get()`, iteration order, `copy` / `deepcopy` / `pickle`, `str` / `repr`,
+     attribute versus item access, subclasses of the library's classes, Mapping / Sequence look-alikes (OrderedDict, MappingProxyType, tuple, set, generator, dict views) passed where dict / list is usual,
+   * coercions between value kinds: bool versus int versus float versus numeric text, bytes versus str, integer-valued floats, `Decimal`, enum members, datetime subclasses, None versus missing versus empty,
+   * text classes: non-ASCII letters and digits, combining characters, upper/lower case pairs that are not one-to-one, astral characters, control characters, leading / trailing / inner white space, very long text,
+   * PARTIAL failure: one bad element among good ones in a list / bundle / batch (what is kept, what is reported, what a retry does), the second error after a first one, an exception raised half-way through a
+     multi-step update,
+   * rarely used keyword options of public calls (serialize(pretty / include_optional_defaults / sort_keys / indent / ensure_ascii), new_version(allow_custom), query forms, `encoding`, `bundlify`, `path` of
+     save_to_file / load_from_file, FileSystem `bundlify` / `allow_custom`), alone or combined with each other.""",
  2: """   * a multi-step SEQUENCE of operations (state left behind by an earlier call: a cache, a module-level or class-level mutable default, an object reused between calls),
    * two cooperating code sites that each look fine alone,
    * a rarely used type / property / option combination, or a value class at a boundary (an exponent range, a particular digit pattern, a Unicode class, a list length, an ordering of dictionary keys),
